@@ -322,7 +322,10 @@ def make_method_contract(fam, meth):
         def replay(self, case, ob):
             return replay_method(fam, meth, case, ob)
     M.__name__ = f"Method_{fam}_{meth}"
-    return contract(D + fam + "." + meth, ["C05", "C08", "C19"], _method_cases(fam), name=f"post.{fam}.{meth}")(M)
+    # the joint density / distribution function (C06) and the Rosenblatt maps of the contours (C01) call these methods
+    # through the DistLike interface: its frame and value clauses are discharged here, per family
+    props = ["C05", "C08", "C19"] + (["C06"] if meth in ("pdf", "cdf") else []) + (["C01"] if meth == "icdf" else [])
+    return contract(D + fam + "." + meth, props, _method_cases(fam), name=f"post.{fam}.{meth}")(M)
 
 
 def replay_method(fam, meth, case, ob):
@@ -341,11 +344,18 @@ def replay_method(fam, meth, case, ob):
     ref = cls(**ref_kw)
     xs = np.array([0.15, 0.45, 0.8]) if meth == "icdf" else np.array([-1.0, 0.0, 0.4, 1.1, 2.9])
     x = {"scalar": float(xs[-2]), "array": xs, "list": xs.tolist()}[case["x"]]
+    x_before = np.array(x, dtype=float, copy=True)
+    attrs_before = {k: np.array(v, copy=True) for k, v in vars(inst).items() if isinstance(v, (int, float, np.ndarray))}
     try:
         a = np.asarray(getattr(inst, meth)(x, **expl), dtype=float)
     except Exception as e:
         return {"confirmed": True, "detail": f"{fam}(**{self_kw}).{meth}({x!r}, **{expl}) raised {type(e).__name__}: {e}"}
-    b = np.asarray(getattr(ref, meth)(np.asarray(x, dtype=float)), dtype=float)
+    x_written = isinstance(x, np.ndarray) and not np.array_equal(x, x_before, equal_nan=True)
+    attrs_written = [k for k, v in attrs_before.items() if not np.array_equal(np.asarray(vars(inst).get(k)), v, equal_nan=True)]
+    if x_written or attrs_written:
+        return {"confirmed": True, "detail": f"{fam}(**{self_kw}).{meth}(x) with x = {x_before.tolist()}: "
+                + (f"the caller's array is {x.tolist()} afterwards; " if x_written else "") + (f"attributes written: {attrs_written}" if attrs_written else "")}
+    b = np.asarray(getattr(ref, meth)(np.asarray(x_before, dtype=float)), dtype=float)
     bad = a.shape != b.shape or not np.allclose(a, b, rtol=1e-9, atol=1e-12, equal_nan=False)
     return {"confirmed": bool(bad), "detail": f"{fam}(**{self_kw}).{meth}({x!r}, **{expl}) = {a.tolist()}; constructed instance gives {b.tolist()}"}
 
